@@ -101,6 +101,8 @@ class Real:
             return _norm(h.read(op[2], atom_indices=self.ai))
         if k == "readall":
             return _norm(h.read(atom_indices=self.ai))
+        if k == "read_over":
+            return _norm(h.read(op[2], atom_indices=self.ai))
         if k == "seek":
             h.seek(op[2])
             return None
@@ -135,6 +137,7 @@ class Model:
                 ops.append((h, "read", n))
             if p < self.n:
                 ops.append((h, "readall"))
+                ops.append((h, "read_over", self.n - p + 2))      # read(n) asking for 2 more than remain: "reading the remainder"
             if self.seekable:
                 ops.append((h, "tell"))
                 if self.has_len:
@@ -154,7 +157,7 @@ class Model:
         if k == "read":
             exp = ("frames", p, p + op[2])
             self.p[h] = p + op[2]
-        elif k == "readall":
+        elif k in ("readall", "read_over"):
             exp = ("frames", p, self.n)
             self.p[h] = self.n
         elif k == "seek":
@@ -236,7 +239,7 @@ class Spec:
         op = hist[i] if i < len(hist) else ("?", "horizon")
         mine = [o for o in hist[:i] if o[0] == op[0]]
         last_abs = max([j for j, o in enumerate(mine) if o[1] == "seek"], default=-1)
-        prev = "readall-since-last-absolute-seek" if any(o[1] == "readall" for o in mine[last_abs + 1:]) \
+        prev = "readall-since-last-absolute-seek" if any(o[1] in ("readall", "read_over") for o in mine[last_abs + 1:]) \
             else "no-readall-since-last-absolute-seek"
         kind = "wrong-data" if "data" in str(mis) or "shape" in str(mis) else \
             ("raised" if str(mis).startswith("raised") else ("horizon" if mis == "horizon" else "wrong-value"))
